@@ -67,7 +67,7 @@ def configs(tier):
     for sel in ("value", "position-x", "position-xz", "value+position", "cpulist"):
         for ordering in ("hilbert", "planar"):
             out.append(dict(kind="load", ndim=3, sel=sel, ordering=ordering, _split=3))
-    for sel in ("value", "position-x", "value+position"):
+    for sel in ("value", "position-x", "value+position", "value2", "value2+position"):
         out.append(dict(kind="load", ndim=2, sel=sel, ordering="planar", _split=3))
     # a position predicate together with a level predicate that caps the levels read below the header's levelmax (the key table
     # stays expressed at levelmax + 1): the header announces one level more than the tree has, the predicate accepts l <= 2
@@ -316,6 +316,19 @@ def _load(m, cfg):
                 # combined with a position predicate: the threshold ranges over a window of the (ordered) densities only
                 m.assume(m.And(m.gt(m.t(thr), dens[len(dens) // 3]), m.lt(m.t(thr), dens[len(dens) // 3 + 2])))
             select["density"] = lambda d: d > Array(thr * out.cfg["unit_d"], unit="g/cm**3")
+        thr2 = None
+        if "value2" in sel:
+            # a second value predicate, on another variable of the same reader (AND): pressures increasing in file order too,
+            # both thresholds inside a window of the ordered values
+            pres = [m.t(x) for o in out.octs for x in o.vals["hydro"]["pressure"]]
+            for p_, q_ in zip(pres, pres[1:]):
+                m.assume(m.lt(p_, q_))
+            thr2 = m.real("threshold2")
+            k2 = 2 * len(pres) // 3
+            m.assume(m.And(m.gt(m.t(thr2), pres[k2 - 1]), m.lt(m.t(thr2), pres[k2 + 1])))
+            m.assume(m.And(m.gt(m.t(thr), dens[len(dens) // 3]), m.lt(m.t(thr), dens[len(dens) // 3 + 2])))
+            fp = out.cfg["unit_d"] * (out.cfg["unit_l"] / out.cfg["unit_t"]) ** 2
+            select["pressure"] = lambda p: p < Array(thr2 * fp, unit="erg/cm**3")
         if "position" in sel:
             x0 = m.real("x0", lo=0.0, hi=size)
             x1 = m.real("x1", lo=0.0, hi=size)
@@ -350,6 +363,8 @@ def _load(m, cfg):
             fs = []
             if thr is not None:
                 fs.append(m.gt(m.t(o.vals["hydro"]["density"][ind]), m.t(thr)))
+            if thr2 is not None:
+                fs.append(m.lt(m.t(o.vals["hydro"]["pressure"][ind]), m.t(thr2)))
             h = 0.5 ** o.level
             if x0 is not None:
                 xc = (o.centre_code[0] + ((ind & 1) - 0.5) * h - xb[0]) * size
